@@ -19,7 +19,7 @@ from ..model import AnalysisError
 from ..terms import T, walk_terms
 from ..absint import AV, TOP, cav
 from ..walk import (call_parts, call_arg, is_call_to, const_val, NOVAL, strip_views, unwrap_gamma, callee_func, callee_name,
-                    call_paths, is_conj, same_value)
+                    call_paths, is_conj, same_value, norm_stmt)
 from .. import loop as LP
 from .. import ein, sel
 
@@ -283,6 +283,21 @@ SCATTER_FITS = [
 ]
 
 
+def tiny_floor(t):
+    """k * np.finfo(.).tiny with a moderate k, or a literal below 1e-100"""
+    t = strip_views(t)
+    if t.op == 'const' and isinstance(t.args[0], (int, float)) and not isinstance(t.args[0], bool):
+        return 0 < t.args[0] <= 1e-100
+    if t.op == 'attr' and t.args[1] == 'tiny' and is_call_to(t.args[0], 'numpy.finfo'):
+        return True
+    if t.op == 'binop' and t.args[0] == 'Mult':
+        a, b = strip_views(t.args[1]), strip_views(t.args[2])
+        for k, x in ((a, b), (b, a)):
+            if k.op == 'const' and isinstance(k.args[0], (int, float)) and 0 < k.args[0] <= 1e6 and tiny_floor(x):
+                return True
+    return False
+
+
 def is_saliency_term(t):
     t = strip_views(t)
     return any(x.op == 'param' and x.args[0] == 'saliency' for x in walk_terms(t, into_mu=False))
@@ -344,6 +359,18 @@ def check_estimators(run, A):
         any(x.op == 'param' and x.args[0] == 'quadratic_form' for x in walk_terms(w.args[2], into_mu=False))
     run.check(okq, 'R-EIN', 'cACG update: observation weight is saliency / quadratic_form', s.loc, '',
               'the third operand of the scatter contraction is not saliency divided by the (floored) quadratic form', construct=f'R-EIN::{q}::tyler-weight')
+    # the divisor is the quadratic form itself: its positivity guard may only be a floor far below every value a quadratic form of unit
+    # vectors can take (k * finfo.tiny); a floor such as 1 replaces the MM weight 1 / (z^H B^-1 z) wherever it is active
+    den = strip_views(w.args[2]) if okq else None
+    if den is not None and den.op != 'param':
+        okf = is_call_to(den, 'numpy.maximum')
+        if okf:
+            a_, b_ = strip_views(call_arg(den, 0)), strip_views(call_arg(den, 1))
+            fl = b_ if any(x.op == 'param' and x.args[0] == 'quadratic_form' for x in walk_terms(a_, into_mu=False)) else a_
+            okf = tiny_floor(fl)
+        run.check(okf, 'R-SAN', 'cACG update: the quadratic form is only floored by a multiple of finfo.tiny', fn.loc(den.node), '',
+                  f'`{norm_stmt(den.node)[:80]}`: the floor of the MM weight divisor is not a small multiple of the smallest float; wherever it exceeds z^H B^-1 z the update is no '
+                  f'longer the Tyler / MM step (e.g. covariance_norm=False, where eigenvalues are not bounded by one)', construct=f'R-SAN::{q}::quadratic-form-floor')
     # factor D = y.shape[-2] multiplies the contraction
     parent = [t for e in g.events if e.term is not None for t in walk_terms(e.term) if t.op == 'binop' and t.args[0] == 'Mult' and (t.args[1] is s.term or t.args[2] is s.term)]
     okd = False
